@@ -136,11 +136,14 @@ fn case_compositions<F: Family>(input: &Input, ctx: &mut Ctx) -> CaseResult {
     compare::<F>(data, &one, &one, "one-shot").map_err(Violation::new)?;
     let mut runs = 0u64;
     for comp in first..first + count {
-        for mode in 0..3u64 {
-            let steps = composition_steps(data.len(), comp, mode);
-            let drop_mask = if mode == 2 { u64::MAX } else { 0 };
-            let run = fam::dec_poll_scripted::<F>(data, &steps, drop_mask, None, true);
-            let what = format!("{} composition {:#b} of {} bytes, mode {} ({})", F::FAM.name(), comp, data.len(), mode, ["no Pending", "Pending before every read", "Pending before every read, future dropped and re-created at every Pending"][mode as usize]);
+        for mode in 0..4u64 {
+            // mode 3 = mode 2 continuing from a clone of the caller-held state
+            let steps = composition_steps(data.len(), comp, mode.min(2));
+            let drop_mask = if mode >= 2 { u64::MAX } else { 0 };
+            // the transport's way of filling the ReadBuf alternates with the composition
+            let style = ((comp ^ mode) & 1) as u8 | if mode == 3 { 2 } else { 0 };
+            let run = fam::dec_poll_styled::<F>(data, &steps, drop_mask, None, true, style);
+            let what = format!("{} composition {:#b} of {} bytes, mode {} ({}), transport fill style {}", F::FAM.name(), comp, data.len(), mode, ["no Pending", "Pending before every read", "Pending before every read, future dropped and re-created at every Pending", "Pending before every read, future re-created from a clone of the state at every Pending"][mode as usize], style);
             if let Err(m) = compare::<F>(data, &one, &run, &what) {
                 ctx.refine = Some((if F::FAM == crate::model::Fam::V3 { "c05.schedule.v3" } else { "c05.schedule.v5" }, Input::Nums(vec![si as u64, comp, mode])));
                 return Err(Violation::new(m));
@@ -165,8 +168,9 @@ fn case_schedule<F: Family>(input: &Input, ctx: &mut Ctx) -> CaseResult {
     let streams = short_streams::<F>();
     let data = streams.get(n[0] as usize).ok_or_else(|| Violation::new("MQV-INTERNAL: stream index out of range"))?;
     let one = fam::dec_poll_scripted::<F>(data, &[], 0, None, true);
-    let steps = composition_steps(data.len(), n[1], n[2]);
-    let run = fam::dec_poll_scripted::<F>(data, &steps, if n[2] == 2 { u64::MAX } else { 0 }, None, true);
+    let steps = composition_steps(data.len(), n[1], n[2].min(2));
+    let style = ((n[1] ^ n[2]) & 1) as u8 | if n[2] == 3 { 2 } else { 0 };
+    let run = fam::dec_poll_styled::<F>(data, &steps, if n[2] >= 2 { u64::MAX } else { 0 }, None, true, style);
     compare::<F>(data, &one, &run, &format!("composition {:#b} mode {}", n[1], n[2])).map_err(Violation::new)?;
     ctx.count_distinct(1);
     Ok(())
@@ -214,8 +218,15 @@ fn case_random<F: Family>(input: &Input, ctx: &mut Ctx) -> CaseResult {
             1 => u64::MAX,
             _ => (t.u16() as u64) | ((t.u16() as u64) << 16) | ((t.u16() as u64) << 32),
         };
-        let run = fam::dec_poll_scripted::<F>(&data, &steps, drop_mask, None, true);
-        let what = format!("{} stream [{}] under schedule {:?}, drop mask {:#x}", F::FAM.name(), origin, &steps[..steps.len().min(24)], drop_mask);
+        let style = t.pick(4) as u8;
+        let run = fam::dec_poll_styled::<F>(&data, &steps, drop_mask, None, true, style);
+        if style & 1 == 1 {
+            ctx.label("transport-fills-by-initialize-and-advance");
+        }
+        if style & 2 != 0 && drop_mask != 0 {
+            ctx.label("resumed-from-cloned-state");
+        }
+        let what = format!("{} stream [{}] under schedule {:?}, drop mask {:#x}, transport fill style {}", F::FAM.name(), origin, &steps[..steps.len().min(24)], drop_mask, style);
         compare::<F>(&data, &one, &run, &what).map_err(Violation::new)?;
         let body_reads = run.log.iter().filter(|r| r.pos >= hl && r.got.map(|g| g > 0 && g != usize::MAX).unwrap_or(false)).count();
         let pend = run.log.iter().filter(|r| r.got.is_none()).count();
@@ -415,6 +426,8 @@ pub fn run(env: &mut Env) -> RunResult {
         env.require(s, "header-width:4");
     }
     for s in ["c05.random.v3", "c05.random.v5"] {
+        env.require(s, "transport-fills-by-initialize-and-advance");
+        env.require(s, "resumed-from-cloned-state");
         for l in ["dropped-at-pending", "pending-inside-var-int", "header-width:2", "header-width:3", "stream:accepted", "stream:rejected-or-incomplete"] {
             env.require(s, l);
         }
